@@ -64,13 +64,24 @@ def variants(obj, rng, pool, per_field=8, others=()):
         except AttributeError:
             continue
         cands = []
+        if type(cur) is list and not cur:
+            # an empty list field: fill it with values of sibling fields (accepted only if the validator agrees)
+            for g in fields:
+                try:
+                    sib = getattr(obj, g.name)
+                except AttributeError:
+                    continue
+                if g is not f and sib is not None and not isinstance(sib, (bool, int, str, bytes, bytearray, list, tuple, dict, set)):
+                    cands.append(('sibling1', [sib]))
+                    cands.append(('sibling2', [sib, sib]))
+                    break
         if cur is None:
             for o in others:
                 v = getattr(o, f.name, None)
                 if v is not None:
                     cands.append(('present', v))
                     break
-        else:
+        elif not cands:
             try:
                 cands = _values_for(cur, rng, pool)
             except Exception:  # pylint: disable=broad-except
